@@ -132,6 +132,19 @@ func with(m map[string]int, kv ...interface{}) map[string]int {
 	return r
 }
 
+// failedLoadVsWriteJob: a failing load racing with an explicit write — shared by C09 (write stands), C10 (failed load
+// leaves the cache unchanged) and C12 (deadlines of the written entry are exactly write time + duration).
+func failedLoadVsWriteJob(prefix, tier string) *Job {
+	p := 1
+	if tier == "thorough" {
+		p = 2
+	}
+	j := mk(sprintf("%s.failed_load_vs_write.pre%d", prefix, p), rootPkg, "ZZ_C09_FailedLoadVsWrite", nil,
+		func(b *Bounds) { b.Unwind = 60; b.Preempt = p; b.Race = true; b.MaxPaths = 8000000; b.MaxWallS = 3000 })
+	j.Labels = []string{"c09f.explicit_write_survives_the_failed_load", "c09f.failed_load_leaves_refresh_time_of_the_written_entry"}
+	return j
+}
+
 // refreshJoinJob: explicit Refresh calls (and a Get) racing on one key — shared by C08 (joining) and C11 (one result per call).
 func refreshJoinJob(prefix, tier string) *Job {
 	rp := 1
@@ -171,6 +184,7 @@ func init() {
 				js = append(js, j)
 			}
 		}
+		js = append(js, failedLoadVsWriteJob("c12", tier))
 		j := mk("c12.canary", rootPkg, "ZZ_C12_Expiry", with(cfgParams(2, 0, 0, 10, 1, 0), "op", 0, "canary", 1), nil)
 		j.Canary = "c12.canary"
 		js = append(js, j)
@@ -459,6 +473,15 @@ func init() {
 		}
 		js = append(js, mk("c10.bulkstale.r_writing", rootPkg, "ZZ_C10_BulkStale", cfgParams(0, 2, 0, 0, 0, 0), func(b *Bounds) { b.Unwind = 12; b.MapOrders = 2 }))
 		js = append(js, mk("c10.bulkstale.r_creating", rootPkg, "ZZ_C10_BulkStale", cfgParams(0, 1, 0, 0, 0, 0), func(b *Bounds) { b.Unwind = 12; b.MapOrders = 2 }))
+		vp := 1
+		if tier == "thorough" {
+			vp = 2
+		}
+		vj := mk(sprintf("c10.volunteer_vs_load.pre%d", vp), rootPkg, "ZZ_C10_VolunteerVsLoad", nil,
+			func(b *Bounds) { b.Unwind = 60; b.Preempt = vp; b.Race = true; b.MapOrders = 2; b.MaxPaths = 8000000; b.MaxWallS = 3000 })
+		vj.Labels = []string{"c10v.volunteered_key_is_cached", "c10v.volunteered_value_cached_when_the_single_load_failed_or_never_ran"}
+		js = append(js, vj)
+		js = append(js, failedLoadVsWriteJob("c10", tier))
 		j := mk("c10.canary", rootPkg, "ZZ_C10_Bulk", with(cfgParams(2, 0, 0, 0, 1, 0), "reqlen", 2, "canary", 1), func(b *Bounds) { b.Unwind = 12 })
 		j.Canary = "c10.canary"
 		return append(js, j)
@@ -810,6 +833,7 @@ func init() {
 		xp := 2 // both tiers: bound 3 is about thirty times the 100 000 schedules of bound 2
 		js = append(js, mk(sprintf("c09.reload_vs_expired_invalidation.pre%d", xp), rootPkg, "ZZ_C09_ReloadVsExpiredInvalidation", nil,
 			func(b *Bounds) { b.Unwind = 140; b.Preempt = xp; b.Race = true; b.MaxPaths = 6000000; b.MaxWallS = 2400 }))
+		js = append(js, failedLoadVsWriteJob("c09", tier))
 		c := mk("c09.canary", rootPkg, "ZZ_C09_LoadVsWrite", map[string]int{"mode": 0, "canary": 1}, func(b *Bounds) { b.Unwind = 60; b.Preempt = 1; b.Race = true })
 		c.Canary = "c09.canary"
 		return append(js, c)
